@@ -157,8 +157,16 @@ def registration(ctx) -> None:
     adds = [c for c in core.calls_in(sel.node) if isinstance(c.func, ast.Attribute) and c.func.attr == 'add' and core.src(c.func.value).endswith('.fields')]
     okf = bool(adds) and all(isinstance(c.func.value.value, ast.Subscript) and core.src(c.func.value.value.slice) == f'{core.src(c.args[0])}.origin' for c in adds)
     ctx.check(okf, 'C14.registration', sel, 'a column is registered in the segment of its own origin (self[field.origin].fields.add(field)): after re-attributing a referenced element to its base table the base table segment must receive it', adds[0] if adds else sel.node, key='select:own-origin')
+    # referenced elements are re-attributed to their base table (the lazy feed and every push-down consumer are keyed by
+    # tables), elements of any other referenced source are left to that source's own statement
+    f0 = core.src(next(x for x in core.walk_local(sel.node) if isinstance(x, ast.For)).target)
+    ref_t, tab_t = ('isinstance(origin, dsl.Reference)', True), ('isinstance(origin.instance, dsl.Table)', True)
+    shared.stmt_under(ctx, 'C14.registration', sel, f'{f0} = dsl.Column(origin.instance, {f0}.name)', [ref_t, tab_t], 'an element of a referenced table is registered as the column of that table', 'select:re-attribute', inlined=False)
+    conts = [c for c in core.walk_local(sel.node) if isinstance(c, ast.Continue)]
+    ctx.check(len(conts) == 1 and sorted(cfg.cguards(conts[0], sel.node)) == sorted([ref_t, (tab_t[0], False)]), 'C14.registration', sel, 'only elements of referenced non-table sources are skipped', conts[0] if conts else sel.node, key='select:skip')
     # the only reader
     vt = prog.func(f'{PARSER}:Visitor.visit_table')
+    shared.stmt_under(ctx, 'C14.registration', vt, 'predicate = self.generate_feature(predicate)', [('predicate is not None', True)], 'an offered row filter is translated to target code like any other feature', 'visit_table:translate', inlined=False)
     text = core.src(vt.node)
     ctx.check('self.context.tables[source].fields' in text and 'self.context.tables[source].predicate' in text, 'C14.registration', vt, 'visit_table hands the segment of the visited table to generate_table', vt.node, key='visit_table:segment')
     call = next((c for c in core.calls_in(vt.node) if isinstance(c.func, ast.Attribute) and c.func.attr == 'generate_table'), None)
@@ -589,6 +597,8 @@ def run(ctx) -> None:
     ])
     ctx.floor('R-ELEMENT', n, 3)
     merge_case_split(ctx)
+    nne = shared.r_nebool(ctx, tenv, list(prog.functions([m for m in prog.modules if m.startswith(('forml.io.dsl', 'forml.provider.feed'))])))
+    ctx.floor('R-NEBOOL.contexts', nne, 100)
     nrep = shared.r_repreq(ctx, list(prog.functions([m for m in prog.modules if m.startswith(('forml.io.dsl', 'forml.provider.feed'))])))
     ctx.floor('R-REPREQ.functions', nrep, 300)
     logical_factors(ctx)
